@@ -440,6 +440,10 @@ func (dr *DialogueRunner) RestoreAt(snapshot *Snapshot) error {
 		}
 	}
 
+	dr.variableSnapshot = maps.Clone(snapshot.Variables)
+	dr.lastStatement = nil
+	dr.commandErrChan = nil
+
 	dr.statementsToRun.Clear()
 	dr.statementsToRun.Push(&statementQueue{statements: node.Statements})
 	dr.currentNode = node.Title()
